@@ -1,4 +1,5 @@
 pub mod game;
 pub mod pos;
+pub mod san;
 pub use game::*;
 pub use pos::*;
